@@ -33,7 +33,7 @@ static void build_texts() {
         for (int v = 0; v < n; ++v) { Text t; int x = v; bool has_unmapped = false; for (int k = 0; k < L; ++k) { t.usv.push_back(alpha[x % 3]); if (x % 3 == 2) has_unmapped = true; x /= 3; }
             if (!g_thorough && L == 3 && has_unmapped && t.usv[1] != 0xE000) continue;     // quick: length-3 strings keep the unmapped character only in the middle
             g_texts.push_back(t); } }
-    for (auto l : { std::vector<uint32_t>{ 0x10000 }, std::vector<uint32_t>{ 0x61, 0x10000, 0x62 }, std::vector<uint32_t>{ 0x63, 0x64 }, std::vector<uint32_t>{ 0x61, 0x301, 0x300 }, std::vector<uint32_t>{ 0x62, 0x62, 0x62, 0x62, 0x62, 0x62 } }) { Text t; t.usv = l; g_texts.push_back(t); }
+    for (auto l : { std::vector<uint32_t>{ 0x10000 }, std::vector<uint32_t>{ 0x61, 0x10000, 0x62 }, std::vector<uint32_t>{ 0x63, 0x64 }, std::vector<uint32_t>{ 0x61, 0x301, 0x300 }, std::vector<uint32_t>{ 0x62, 0x62, 0x62, 0x62, 0x62, 0x62 }, std::vector<uint32_t>{ 0x301, 0x61 }, std::vector<uint32_t>{ 0x301, 0x301, 0x61, 0x62, 0x301 } }) { Text t; t.usv = l; g_texts.push_back(t); }
     for (auto &t : g_texts) { for (uint32_t c : t.usv) { size_t off = t.u8.size(); ref::enc8(c, t.u8); t.dec.push_back({ c, off, unsigned(t.u8.size() - off), true, false, false }); } t.u8.push_back(0); }
     if (g_thorough) g_dirs = { 0, 1, 2, 3, 4, 5, 6, 7 }; else g_dirs = { 0, 1, 3, 6 };
 }
